@@ -324,7 +324,7 @@ fn main() {
     // ordered pair of them
     {
         let lens = tu_verif::enumerate::threshold_lengths(run.pick(8, 10));
-        run.bounds.insert("a_long_phase".into(), json!(format!("symbol counts {lens:?} x (2 symbol patterns x every ordered pair of 6 gap patterns; every ordered pair of 7 texts around one grapheme cluster of that many code points) x use_graphemes")));
+        run.bounds.insert("a_long_phase".into(), json!(format!("symbol counts {lens:?} x (2 symbol patterns x every ordered pair of 6 gap patterns; every ordered pair of 7 texts around one grapheme cluster of that many code points; part (b): 9 texts of one repeated 2-, 3-, 4-byte character at every byte alignment, and cut by a space, x all-Keep lists of 0, 1, n-1, n, n+1, 2n operations) x use_graphemes")));
         let base_l = n_e + (ews.len() + ebs.len()) as u64;
         for (k, n) in lens.iter().enumerate() {
             if !run.unit(base_l + k as u64) {
@@ -348,6 +348,19 @@ fn main() {
                     for to in &texts {
                         for g in [false, true] {
                             check_a(&mut run, from, to, g);
+                        }
+                    }
+                }
+            }
+            // part (b) on long texts: multi-byte characters at every alignment relative to a byte offset,
+            // all-Keep of the matching length and operation lists of other lengths (error, not a panic)
+            for t in tu_verif::enumerate::byte_aligned_texts(*n) {
+                let spaced = format!("{} {}", &t[..t.len() / 2 + (0..4).find(|d| t.is_char_boundary(t.len() / 2 + d)).unwrap()], "a");
+                for s in [t.clone(), spaced] {
+                    for g in [false, true] {
+                        let nch = refs::chars(&s, g).len();
+                        for len in [0, 1, nch - 1, nch, nch + 1, 2 * nch] {
+                            check_b(&mut run, &s, &vec![Operation::Keep; len], g);
                         }
                     }
                 }
